@@ -119,7 +119,7 @@ func (g *G) MsgStress(allowPlural bool) []Cmd {
 		}
 		return out
 	}
-	msg := Cmd{K: "msg", Desc: g.Pick("d", "greeting", "", "a \"quoted\" description"), Meaning: g.Pick("", "", "", "noun", "verb")}
+	msg := Cmd{K: "msg", Desc: g.Pick("d", "greeting", "", "a \"quoted\" description", "two lines:\nthe second", "#, fuzzy\r\nmsgid \"x\""), Meaning: g.Pick("", "", "", "noun", "verb")}
 	if allowPlural && g.Chance(30) {
 		lets = append(lets, Cmd{K: "let", Var: "num", Expr: &Expr{Op: "int", I: int64(g.Intn(4))}})
 		pl := Cmd{K: "plural", Expr: &Expr{Op: "ref", Name: "num"}}
